@@ -662,6 +662,15 @@ func checkC10(p *Program, r *Report) {
 		}
 	}
 	r.Floor("C10.scanall", 2)
+	// round 5 (C10-agent5-m3): the id the matcher tests and inserts is tx.Hash(); that it IS the wrapped message's hash
+	// is C16's memo clause for bchutil.Tx (a constructor that memoises the hash of its raw input bytes breaks it)
+	r.Borrow("C16", func(o *Ob) (string, bool) {
+		if (o.Rule == "C16.writers" || o.Rule == "C16.frozen") && (strings.Contains(o.Construct, "Tx.") || strings.Contains(o.Construct, "hash") || strings.Contains(o.Func, "Tx")) {
+			return "C10.txid", true
+		}
+		return "", false
+	})
+	r.Floor("C10.txid", 2)
 	r.Floor("C10.outpoint", 2)
 	spenderIndexRule(p, r, "C10.block")
 	r.Floor("C10.block", 5)
